@@ -4,6 +4,7 @@ import (
 	"fmt"
 	"go/token"
 	"go/types"
+	"sort"
 	"strings"
 
 	"gosx/smt"
@@ -364,14 +365,21 @@ func (it *Interp) schedule() bool {
 	if it.mainDone && !it.quiescing {
 		return false
 	}
-	var ready []*G
-	// default order: the current goroutine's most recently created peers first
+	var ready, parked []*G
+	// default order: the current goroutine's most recently created peers first; goroutines parked at the end of a
+	// plugin call (slow-yield policy) come last, longest-parked first
 	for i := len(it.gs) - 1; i >= 0; i-- {
 		o := it.gs[i]
 		if it.isReady(o) {
-			ready = append(ready, o)
+			if o.parked {
+				parked = append(parked, o)
+			} else {
+				ready = append(ready, o)
+			}
 		}
 	}
+	sort.Slice(parked, func(i, j int) bool { return parked[i].parkSeq < parked[j].parkSeq })
+	ready = append(ready, parked...)
 	if len(ready) == 0 {
 		if it.mainDone {
 			return false
@@ -405,11 +413,27 @@ func (it *Interp) schedule() bool {
 	if len(ready) > 1 {
 		pick = it.chooseG(ready)
 	}
+	for _, o := range ready {
+		if o != pick && o.wait != nil {
+			it.races++
+		}
+	}
 	pick.wait = nil
 	pick.atSwitch = true
+	pick.parked = false
 	it.cur = pick
 	_ = cur
 	return true
+}
+
+// slowYield: the switch class is one at which goroutines park by default.
+func (it *Interp) slowYield(cls string) bool {
+	for _, p := range it.Cfg.SlowYield {
+		if cls != "" && strings.HasPrefix(cls, p) {
+			return true
+		}
+	}
+	return false
 }
 
 // chooseG takes a scheduling decision: ready[0] is free, any other choice costs one delay.
@@ -489,6 +513,17 @@ func (it *Interp) maybePreempt(g *G, fr *Frame, ins ssa.Instruction) bool {
 	if g.atSwitch || g.syncDepth > 0 || it.initDepth > 0 {
 		return false
 	}
+	if len(it.Cfg.SlowYield) > 0 && len(it.gs) >= 2 {
+		if cls := it.switchClass(fr, ins); it.slowYield(cls) {
+			// plugin calls are slow: by default the goroutine waits here until every other goroutine is blocked or
+			// parked as well (then the longest-parked one resumes); resuming earlier is a deviation
+			it.parkCtr++
+			g.parked, g.parkSeq = true, it.parkCtr
+			it.schedule()
+			g.atSwitch = true
+			return it.cur != g
+		}
+	}
 	if it.preempt >= it.Cfg.Preemptions || len(it.gs) < 2 {
 		return false
 	}
@@ -511,6 +546,11 @@ func (it *Interp) maybePreempt(g *G, fr *Frame, ins ssa.Instruction) bool {
 	}
 	it.preempt++
 	ng := it.gs[id]
+	for _, o := range others {
+		if o != ng && o.wait != nil {
+			it.races++
+		}
+	}
 	ng.wait = nil
 	ng.atSwitch = true
 	it.cur = ng
